@@ -9,6 +9,7 @@
     §4 a script interpreter for the command vocabulary of the generated scripts (solo prediction of
        every observation a script can make) with the skeleton of `run`: exit paths, the LIFO chain
        of deferred functions, the bookkeeping of `ts.background`, the deferred blocks of `run`;
+    §4b the names (and so the work directories) RunT gives to the scripts of one call;
     §5 the reference-counted cleanup of RunT as a transition system over N finishers.
   The C17 part (grace arithmetic, waitOrStop, cmdExec attribution) is GIV/Model/TsLifeDl.lean,
   with facts of its own (GIV/Gen/TsLifeDl.lean): the two properties' chains are kept apart.
@@ -180,6 +181,12 @@ inductive BgKind where
   | bad   -- exits 1
   deriving Repr, DecidableEq
 
+/-- how a deferred function ends: normally, or by calling FailNow / Skip on the T
+(runtime.Goexit), or by panicking. -/
+inductive Abort where
+  | none | failNow | skip | panic
+  deriving Repr, DecidableEq
+
 inductive Op where
   | probe
   | cd (rel : List String)
@@ -189,7 +196,7 @@ inductive Op where
   | cp (src dst : List String)
   | rm (rel : List String)
   | chmod (rel : List String)
-  | regDefer (id : Nat)
+  | regDefer (id : Nat) (ab : Abort)
   | bg (name : String) (kind : BgKind) (neg : Bool)
   | fg
   | waitAll
@@ -237,13 +244,25 @@ structure Cfg where
 /-- closure built by `Defer`: `func() { defer old(); f() }` or the empty function. -/
 inductive Chain where
   | nop
-  | link (id : Nat) (old : Chain)
+  | link (id : Nat) (ab : Abort) (old : Chain)
   deriving Repr, DecidableEq
 
-/-- calling a chain: which registered functions run, in which order. -/
-def Chain.call : Chain → List Nat
+/-- calling a chain: which registered functions run, in which order, and whether the call ended
+abnormally (Goexit or panic in flight).  With `defer old(); f()` the older chain runs whatever
+happens in `f`; with `old(); f()` an abnormal end of the older chain would skip `f`. -/
+def Chain.run : Chain → List Nat × Bool
+  | .nop => ([], false)
+  | .link id ab old =>
+    let r := old.run
+    if Gen.TsLife.deferChainsOldLast then (id :: r.1, ab != .none || r.2)
+    else if r.2 then (r.1, true) else (r.1 ++ [id], ab != .none)
+
+def Chain.call (c : Chain) : List Nat := c.run.1
+
+/-- how the functions of a chain end, by id -/
+def Chain.kinds : Chain → List (Nat × Abort)
   | .nop => []
-  | .link id old => if Gen.TsLife.deferChainsOldLast then id :: old.call else old.call ++ [id]
+  | .link id ab old => (id, ab) :: old.kinds
 
 structure SState where
   cwd : Path
@@ -328,7 +347,7 @@ def stepOp (cfg : Cfg) (s : SState) : Op → LineRes
     match s.fs.get p with
     | some _ => .ok s
     | none => .fatal s
-  | .regDefer id => .ok { s with chain := .link id s.chain, registered := s.registered ++ [id] }
+  | .regDefer id ab => .ok { s with chain := .link id ab s.chain, registered := s.registered ++ [id] }
   | .bg name kind neg =>
     if name != "" && s.bg.any (fun b => b.name == name) then .fatal s else
     let b : Bg := ⟨name, kind, neg, s.nextBg⟩
@@ -420,7 +439,7 @@ def runScript (cfg : Cfg) (files : List Entry) (ops : List Op) : Outcome :=
     let s := (pendingDefers false).foldl runDefer { s0 with fs := fs }
     ⟨.fail, s.trace.reverse, s.registered, s.fs⟩
   | (fs, none) =>
-    let chain := cfg.setupDefers.foldl (fun c id => Chain.link id c) Chain.nop
+    let chain := cfg.setupDefers.foldl (fun c id => Chain.link id .none c) Chain.nop
     let s1 : SState := { s0 with fs := fs, env := initialEnv cfg.host workdir cfg.setupEnv, chain := chain, registered := cfg.setupDefers }
     let (s2, ex, _stopped) := loop cfg ops s1
     -- normal end of the loop: interrupt + waitBackground(false), then `if failed { FailNow }`
@@ -428,10 +447,14 @@ def runScript (cfg : Cfg) (files : List Entry) (ops : List Op) : Outcome :=
       | .returned => (drainAll s2, if s2.failed then Exit.failNow else Exit.returned)
       | e => (s2, e)
     let s4 := (pendingDefers true).foldl runDefer s3
+    -- deferred functions that call FailNow / Skip or panic change the verdict like the body does
+    let ran := s3.chain.kinds.filter fun k => s3.chain.call.contains k.1
+    let dFail := ran.any fun k => k.2 == .failNow || k.2 == .panic
+    let dSkip := ran.any fun k => k.2 == .skip
     let v := match ex with
-      | .returned => Verdict.pass
+      | .returned => if dFail then Verdict.fail else if dSkip then .skip else .pass
       | .failNow => .fail
-      | .skipNow => .skip
+      | .skipNow => if dFail then .fail else .skip
       | .hang => .hang
       | .escape => .escape
     ⟨v, s4.trace.reverse, s4.registered, s4.fs⟩
@@ -445,6 +468,40 @@ class FRun : Prop where
   recorded : Gen.TsLife.bgRecordedAfterStart = true
   startsEmpty : Gen.TsLife.deferredStartsEmpty = true
   setupFail : Gen.TsLife.setupFailureFailsNow = true
+
+/-! ## §4b subtest names and work directories (RunT) -/
+
+/-- `filepath.Base(file)` with the `.txt` or else the `.txtar` suffix cut. -/
+def scriptBase (fileName : String) : String :=
+  if fileName.endsWith ".txt" then (fileName.dropEnd 4).toString
+  else if fileName.endsWith ".txtar" then (fileName.dropEnd 6).toString
+  else fileName
+
+/-- the i-th candidate for base name `b`: `b`, `b#1`, `b#2`, … (`strconv.Itoa`). -/
+def cand (b : String) (i : Nat) : String := if i = 0 then b else b ++ "#" ++ toString i
+
+/-- `prefix := name; for i := 1; names[name]; i++ { name = prefix + "#" + strconv.Itoa(i) }`:
+the first candidate that is not taken; the fuel is the number of names taken plus one. -/
+def pickAux (taken : List String) (b : String) : Nat → Nat → Option String
+  | 0, _ => none
+  | f + 1, i => if taken.contains (cand b i) then pickAux taken b f (i + 1) else some (cand b i)
+
+def pickName (taken : List String) (b : String) : Option String := pickAux taken b (taken.length + 1) 0
+
+/-- names given to the scripts of one RunT call, in order (`names[name] = true` after each). -/
+def assignFrom (taken : List String) : List String → Option (List String)
+  | [] => some []
+  | b :: rest =>
+    match pickName taken b with
+    | none => none
+    | some n => match assignFrom (taken ++ [n]) rest with
+      | none => none
+      | some ns => some (n :: ns)
+
+def assignNames (bases : List String) : Option (List String) := assignFrom [] bases
+
+class FNames : Prop where
+  loop : Gen.TsLife.uniqueNameLoop = true
 
 /-! ## §5 reference-counted cleanup (RunT's deferred closure) -/
 
@@ -508,7 +565,6 @@ class FRef : Prop where
   zero : Gen.TsLife.refZero = 0
   init : Gen.TsLife.refInitIsLenFiles = true
   plain : Gen.TsLife.rootRemoveIsPlainRemove = true
-  cancel : Gen.TsLife.cancelAfterRootRemove = true
   deferred : Gen.TsLife.cleanupDeferredBeforeRun = true
 
 end GIV.TsLife
